@@ -23,6 +23,10 @@ var (
 	headerSize  = binary.Size(storage{})
 	sizeFloat64 = binary.Size(float64(0))
 
+	// maxElems is the largest number of elements whose encoding,
+	// header included, has a length that fits in an int.
+	maxElems = (maxLen - int64(headerSize)) / int64(sizeFloat64)
+
 	errWrongType = errors.New("mat: wrong data type")
 
 	errTooBig    = errors.New("mat: resulting data slice too big")
@@ -165,11 +169,11 @@ func (m *Dense) UnmarshalBinary(data []byte) error {
 	if rows < 0 || cols < 0 {
 		return errBadSize
 	}
-	size := rows * cols
-	if size == 0 {
+	if rows == 0 || cols == 0 {
 		return ErrZeroLength
 	}
-	if int(size) < 0 || size > maxLen {
+	if rows > maxElems/cols {
+		// rows*cols, or the size of its encoding, would overflow.
 		return errTooBig
 	}
 	if len(data) != headerSize+int(rows*cols)*sizeFloat64 {
@@ -221,11 +225,11 @@ func (m *Dense) UnmarshalBinaryFrom(r io.Reader) (int, error) {
 	if rows < 0 || cols < 0 {
 		return n, errBadSize
 	}
-	size := rows * cols
-	if size == 0 {
+	if rows == 0 || cols == 0 {
 		return n, ErrZeroLength
 	}
-	if int(size) < 0 || size > maxLen {
+	if rows > maxElems/cols {
+		// rows*cols, or the size of its encoding, would overflow.
 		return n, errTooBig
 	}
 
@@ -358,7 +362,7 @@ func (v *VecDense) UnmarshalBinary(data []byte) error {
 	if n < 0 {
 		return errBadSize
 	}
-	if int64(maxLen) < n {
+	if maxElems < n {
 		return errTooBig
 	}
 	if len(data) != headerSize+int(n)*sizeFloat64 {
@@ -407,7 +411,7 @@ func (v *VecDense) UnmarshalBinaryFrom(r io.Reader) (int, error) {
 	if l < 0 {
 		return n, errBadSize
 	}
-	if int64(maxLen) < l {
+	if maxElems < l {
 		return n, errTooBig
 	}
 
